@@ -1,6 +1,6 @@
 """C12 — a failed filter insert or union leaves the filter unchanged (R12-restore)."""
 from ..paths import PathEnumerator
-from ..terms import TermBuilder, fmt
+from ..terms import TermBuilder, fmt, subterms
 from .common import SELF, self_field, is_self, self_field_term, rng_fields, INTERIOR_MUT, loop_exits_only_on_exhaustion
 
 EXPLANATION = (
@@ -223,6 +223,16 @@ def check_mutator(ctx, m, exempt, helpers):
 
     def step(state, ev):
         d_, l_, p_, filled, stale = state
+        if ev["kind"] == "branch" and ev.get("discr_ty") == "bool" and ev.get("cond") is not None and l_:
+            # `if result.is_err() && !log.is_empty() { replay }`: on the branch that found the (local) log empty nothing was logged
+            c_ = ev["cond"]
+            neg = False
+            while c_[0] == "op" and c_[1] == "Not" and len(c_[2]) == 1:
+                c_, neg = c_[2][0], not neg
+            if c_[0] == "call" and c_[1].endswith("::is_empty") and len(c_[2]) == 1 and not (c_[2][0][0] == "field" and c_[2][0][1][:2] == ("param", 1)) \
+                    and ev.get("value") in (0, 1) and (bool(ev["value"]) != neg):
+                state = (d_, frozenset(), p_, filled, stale)
+                d_, l_, p_, filled, stale = state
         lp_ = in_replay_loop(ev)
         if lp_ is not None:
             # reaching the loop replays the whole log (the loop is verified to run to exhaustion and to store on every iteration);
